@@ -560,6 +560,8 @@ def cmp_print(case, impl, model):
 
 def oracle_print(case, impl):
     """C14 on the implementation alone: the printed item parses, and parses back to the same item"""
+    if "bound_text" in impl and "text" in impl and impl["bound_text"] != impl["text"]:
+        return "the item written with parameters bound to its own terms prints %r, the item itself prints %r" % (impl["bound_text"][:200], impl["text"][:200])
     if "panic" in impl:
         return "panic while printing or parsing back: %s" % impl["panic"]
     if "parse_error" in impl:
